@@ -12,6 +12,7 @@ Refusal clause: the outcome for an unsupported construct must be either an excep
 that vsim accepts and that agrees with Python on the same seeded steps.
 """
 import importlib.util
+import re
 import os
 import random
 import shutil
@@ -108,7 +109,10 @@ def gen(rs, tier, index):
         ins = spec['ins']
     elif r < 0.85:
         seq = rng.random() < 0.75
-        prog = progs.ProgGen(rng, seq=seq).generate()
+        pg = progs.ProgGen(rng, seq=seq)
+        pg.guards = not kf.excluded('transpile-match-guard')
+        pg.ternaries = not kf.excluded('transpile-ternary-operand')
+        prog = pg.generate()
         scn = {'kind': 'prog', 'prog': prog, 'cargs': [v for n, v in prog['consts']]}
         ins = prog['ins']
     else:
@@ -269,7 +273,13 @@ def run(scn, log, st):
         raise Violation('illegal-text', 'illegal:%s' % what, 0, 'emitted text does not elaborate: %s' % m[1])
     m2 = cosim(scn, EventLog(), Stats(), zero_powerup=True)
     suffix = ':uninit-storage' if m2 is None else ''
+    if kind == 'prog' and re.search(r'^\s*case \S+ if ', scn['prog']['src'], re.M):
+        suffix += ':match-guard'          # parameter predicate of KF-C02-3
     raise Violation('transpile-mismatch', 'transpile:%s:%s%s' % (what, m[2], suffix), m[1], m[3])
+
+
+def sig_base(sig):
+    return sig.replace(':match-guard', '')
 
 
 def shrink(scn):
